@@ -43,3 +43,18 @@ pub fn child(id: &str, seed: u64) -> i32 {
         }
     }
 }
+
+/// Case functions exposed to the libFuzzer targets (same decoder, same oracle).
+pub fn fuzz_entry(id: &str, lane: &str) -> Option<&'static crate::engine::runner::CaseFn<'static>> {
+    match (id, lane) {
+        ("C03", "triples") => Some(&c03::case_triples),
+        ("C08", "renders") => Some(&c08::case_render),
+        ("C09", "writer-sequences") => Some(&c09::case_writer),
+        ("C13", "layer-trees") => Some(&c13::case_layers),
+        ("C14", "ops") => Some(&c14::case_tracked),
+        ("C15", "histogram-storage") => Some(&c15::case_hist),
+        ("C15", "matchers") => Some(&c15::case_match),
+        ("C15", "rolling-summary") => Some(&c15::case_roll),
+        _ => None,
+    }
+}
